@@ -928,9 +928,11 @@ def _run_http_producer_turn(
     """
     server_id = app._server.server_id
     protocol_name = app._server.protocol_name
-    # Native sink — see the note in this function's docstring. `tell()` (used for
-    # the max_bytes check below) is supported; `seek()` is not needed on a
-    # write-only stream.
+    # Native sink — see the note in this function's docstring. `seek()` is not
+    # needed on a write-only stream. The max_bytes check below reads the position
+    # of `write_sink` (the uncompressed body position): behind a codec `resp_buf`
+    # only advances when the compressor flushes its buffer, so its `tell()` lags
+    # the body by up to the codec's buffer size and the turn would overrun the cap.
     resp_buf = pa.BufferOutputStream()
     # Compress INTO the IPC stream when a codec was negotiated, instead of
     # building the whole plaintext body and squeezing it afterwards. Arrow's
@@ -1004,7 +1006,7 @@ def _run_http_producer_turn(
         try:
             while True:
                 # Snapshot the budgets remaining at the start of this iteration.
-                remaining_wire = None if max_bytes is None else max(0, max_bytes - resp_buf.tell())
+                remaining_wire = None if max_bytes is None else max(0, max_bytes - write_sink.tell())
                 remaining_external = (
                     None
                     if max_external_bytes is None or not externalization_enabled
@@ -1065,7 +1067,7 @@ def _run_http_producer_turn(
                 # break after every produce cycle so the client receives
                 # data incrementally.  When ``max_bytes`` is configured,
                 # buffer multiple batches until the HTTP body fills the cap.
-                should_continue = max_bytes is not None and resp_buf.tell() < max_bytes
+                should_continue = max_bytes is not None and write_sink.tell() < max_bytes
                 if not should_continue:
                     # Serialize the cursor into a continuation token.  Only the
                     # cursor: the call token was minted at /init and either the
